@@ -214,6 +214,10 @@ impl<S: Storage> Builder<S> {
 
     /// Resolve the column index of `expr` in `schema`.
     fn resolve_column_index_on_schema(&self, expr: Id, schema: &[Id]) -> RecExpr {
+        // the expression may itself be an output of the input (`WHERE b` on a boolean column)
+        if let Some(idx) = schema.iter().position(|x| *x == expr) {
+            return vec![Expr::ColumnIndex(ColumnIndex(idx as _))].into();
+        }
         self.node(expr).build_recexpr(|id| {
             if let Some(idx) = schema.iter().position(|x| *x == id) {
                 return Expr::ColumnIndex(ColumnIndex(idx as _));
